@@ -222,8 +222,8 @@ fn long_patterns(text: &[u32], absent: u32) -> Vec<Vec<u32>> {
     }
     let starts = [0usize, 1, 2, 61, 62, 63, 64, 65, 66, 126, 127, 128, 129];
     // on very long texts a pattern of (almost) the whole text costs seconds per call on the
-    // subject: only the text itself is kept there
-    let whole: Vec<usize> = if n > 2048 { vec![n] } else { vec![n.saturating_sub(1), n] };
+    // subject (backward search is ~30 us per symbol with 65k symbols): 2048 symbols there
+    let whole: Vec<usize> = if n > 2048 { vec![2048] } else { vec![n.saturating_sub(1), n] };
     for m in [5usize, 8, 62, 63, 64, 65, 66].into_iter().chain(whole) {
         if m == 0 || m > n {
             continue;
